@@ -273,10 +273,15 @@ def render(tokens, rng=None, style='plain'):
                 out.append(' ')
             elif style == 'tight':
                 out.append(' ' if must else '')
+            elif style in ('cr', 'tab', 'lf'):
+                # exactly one white-space character at every boundary that needs one, of ONE other kind than the blank
+                # here and there: a query in which no other kind of white space occurs anywhere
+                ch = {'cr': '\r', 'tab': '\t', 'lf': '\n'}[style]
+                out.append((ch if rng.random() < 0.5 else ' ') if must or rng.random() < 0.5 else '')
             else:
                 r = rng.random()
                 if must or r < 0.6:
-                    out.append(rng.choice([' ', ' ', '  ', '\t', '\n', '\r\n', ' \n  ', '\n\t']))
+                    out.append(rng.choice([' ', ' ', '  ', '\t', '\n', '\r\n', ' \n  ', '\n\t', '\r', '\r ']))
                 else:
                     out.append('')
         out.append(t)
